@@ -189,27 +189,131 @@ impl Source for Finite {
     }
 }
 
-fn run_worker_counts(rep: &Report, local: &mut Local) {
-    for workers in [300usize, 100_000, usize::MAX / 2 + 1, usize::MAX] {
-        for (name, bad_at, err_at) in [("fault-free", None, None), ("out-of-width sample in block 2", Some(2usize), None), ("read error at block 3", None, Some(3usize))] {
-            local.evals += 1;
-            let cj = || json!({"extreme_worker_count": {"workers": workers, "script": name}});
-            let run = |mt: bool| {
-                let mut e = flacenc::config::Encoder::default();
-                e.multithread = mt;
-                e.workers = std::num::NonZeroUsize::new(workers);
-                let cfg = e.into_verified().ok().expect("configuration must verify");
-                panicx::catch(|| kind(&flacenc::encode_with_fixed_block_size(&cfg, Finite { blocks: 5, bad_at, err_at, k: 0 }, 32)))
-            };
-            match (run(false), run(true)) {
-                (Ok(a), Ok(b)) if a == b => {
-                    local.outcome("extreme_worker_count_agrees");
-                    local.nontrivial.insert(crate::universe::fnv(&format!("wc{workers}{name}")));
-                }
-                (Ok(a), Ok(b)) => rep.violation_conclusive("result_kind_differs|extreme_worker_count", &format!("{name}, workers = {workers}: multi-thread {b}, single-thread {a}"), cj(), 1),
-                (_, Err(pn)) => rep.violation_conclusive(&format!("caller_panic|extreme_worker_count|{}", pn.class()), &format!("{name}, workers = {workers}: multi-thread encoding panicked: {}", pn.describe()), cj(), 1),
-                (Err(pn), _) => rep.violation(&pn.class(), &format!("single-thread encoding panicked: {}", pn.describe()), cj(), 1),
+const WORKER_COUNTS: [usize; 4] = [300usize, 100_000, usize::MAX / 2 + 1, usize::MAX];
+const SCRIPTS: [(&str, Option<usize>, Option<usize>); 3] = [("fault-free", None, None), ("out-of-width sample in block 2", Some(2usize), None), ("read error at block 3", None, Some(3usize))];
+
+fn wc_case(workers: usize, name: &str) -> Value {
+    json!({"extreme_worker_count": {"workers": workers, "script": name}})
+}
+
+/// One (worker count, script) probe, executed in this process.
+fn worker_count_probe(rep: &Report, local: &mut Local, workers: usize, si: usize) {
+    let (name, bad_at, err_at) = SCRIPTS[si];
+    local.evals += 1;
+    let cj = || wc_case(workers, name);
+    let run = |mt: bool| {
+        let mut e = flacenc::config::Encoder::default();
+        e.multithread = mt;
+        e.workers = std::num::NonZeroUsize::new(workers);
+        let cfg = e.into_verified().ok().expect("configuration must verify");
+        panicx::catch(|| kind(&flacenc::encode_with_fixed_block_size(&cfg, Finite { blocks: 5, bad_at, err_at, k: 0 }, 32)))
+    };
+    match (run(false), run(true)) {
+        (Ok(a), Ok(b)) if a == b => {
+            local.outcome("extreme_worker_count_agrees");
+            local.nontrivial.insert(crate::universe::fnv(&format!("wc{workers}{name}")));
+        }
+        (Ok(a), Ok(b)) => rep.violation_conclusive("result_kind_differs|extreme_worker_count", &format!("{name}, workers = {workers}: multi-thread {b}, single-thread {a}"), cj(), 1),
+        (_, Err(pn)) => rep.violation_conclusive(&format!("caller_panic|extreme_worker_count|{}", pn.class()), &format!("{name}, workers = {workers}: multi-thread encoding panicked: {}", pn.describe()), cj(), 1),
+        (Err(pn), _) => rep.violation(&pn.class(), &format!("single-thread encoding panicked: {}", pn.describe()), cj(), 1),
+    }
+}
+
+/// The same probe in a child process with a watchdog: a call that exhausts the machine's threads or
+/// memory aborts the process that makes it, and that must end as an observation, not as a dead engine.
+fn isolated_worker_count_probe(rep: &Report, local: &mut Local, workers: usize, si: usize) {
+    static N: AtomicUsize = AtomicUsize::new(0);
+    let name = SCRIPTS[si].0;
+    let k = N.fetch_add(1, Ordering::SeqCst);
+    let dir = std::env::temp_dir().join(format!("seqx-c06-{}-{k}", std::process::id()));
+    let _ = std::fs::create_dir_all(&dir);
+    let (case_f, rep_f) = (dir.join("case.json"), dir.join("report.json"));
+    let _ = std::fs::write(&case_f, serde_json::to_string(&json!({"case": wc_case(workers, name)})).unwrap());
+    let exe = std::env::current_exe().expect("own path");
+    let child = std::process::Command::new(exe)
+        .args(["c06", "--replay", case_f.to_str().unwrap(), "--report", rep_f.to_str().unwrap()])
+        .env("VERIF_C06_CHILD", "1")
+        .stdout(std::process::Stdio::null())
+        .stderr(std::process::Stdio::piped())
+        .spawn();
+    local.count("worker_count_probes_in_a_child_process", 1);
+    let mut child = match child {
+        Ok(c) => c,
+        Err(e) => {
+            rep.machinery_error(&format!("cannot run the isolated worker-count probe: {e}"));
+            return;
+        }
+    };
+    // the pipe is drained by a helper so that a chatty child cannot block on it
+    let mut err_pipe = child.stderr.take();
+    let drain = std::thread::spawn(move || {
+        let mut s = Vec::new();
+        if let Some(p) = err_pipe.as_mut() {
+            let _ = std::io::Read::read_to_end(p, &mut s);
+        }
+        String::from_utf8_lossy(&s).into_owned()
+    });
+    let t0 = Instant::now();
+    let patience = Duration::from_secs(180);
+    let status = loop {
+        match child.try_wait() {
+            Ok(Some(st)) => break Some(st),
+            Ok(None) if t0.elapsed() > patience => {
+                let _ = child.kill();
+                let _ = child.wait();
+                break None;
             }
+            Ok(None) => std::thread::sleep(Duration::from_millis(20)),
+            Err(e) => {
+                rep.machinery_error(&format!("waiting for the isolated worker-count probe: {e}"));
+                return;
+            }
+        }
+    };
+    let err = drain.join().unwrap_or_default();
+    let tail: String = err.chars().rev().take(300).collect::<String>().chars().rev().collect::<String>().replace('\n', " ");
+    let report: Option<Value> = std::fs::read_to_string(&rep_f).ok().and_then(|s| serde_json::from_str(&s).ok());
+    local.evals += 1;
+    match (status.and_then(|s| s.code()), status, report) {
+        (_, None, _) => rep.violation_conclusive("hang|extreme_worker_count", &format!("{name}, workers = {workers}: no result within {} s", patience.as_secs()), wc_case(workers, name), 1),
+        (Some(0), _, Some(_)) => {
+            local.outcome("extreme_worker_count_agrees");
+            local.nontrivial.insert(crate::universe::fnv(&format!("wc{workers}{name}")));
+        }
+        (Some(1), _, Some(r)) => {
+            for v in r["violations"].as_array().cloned().unwrap_or_default() {
+                rep.violation_conclusive(v["class"].as_str().unwrap_or("?"), v["what"].as_str().unwrap_or(""), wc_case(workers, name), 1);
+            }
+        }
+        (code, st, _) => rep.violation_conclusive(
+            "process_dies|extreme_worker_count",
+            &format!("{name}, workers = {workers} (a verified configuration): the encoding process died (exit {code:?}, {st:?}): {tail}"),
+            wc_case(workers, name),
+            1,
+        ),
+    }
+    let _ = std::fs::remove_dir_all(&dir);
+}
+
+fn run_worker_counts(rep: &Arc<Report>) {
+    for workers in WORKER_COUNTS {
+        // the three scripts of one worker count side by side
+        let outs: Vec<Local> = std::thread::scope(|s| {
+            let hs: Vec<_> = (0..SCRIPTS.len())
+                .map(|si| {
+                    let rep = Arc::clone(rep);
+                    s.spawn(move || {
+                        panicx::mark_harness_thread();
+                        let mut l = Local::default();
+                        isolated_worker_count_probe(&rep, &mut l, workers, si);
+                        l
+                    })
+                })
+                .collect();
+            hs.into_iter().map(|h| h.join().expect("worker-count probe thread")).collect()
+        });
+        for l in outs {
+            rep.merge(l);
         }
     }
 }
@@ -220,8 +324,14 @@ pub fn run(args: &Args, rep: &Arc<Report>) {
         let s = std::fs::read_to_string(p).unwrap_or_default();
         let v: Value = serde_json::from_str(&s).unwrap_or(Value::Null);
         let c = v.get("case").cloned().unwrap_or(v);
-        if c.get("extreme_worker_count").is_some() {
-            run_worker_counts(rep, &mut local);
+        if let Some(w) = c.get("extreme_worker_count") {
+            let workers = w["workers"].as_u64().unwrap_or(0) as usize;
+            let si = SCRIPTS.iter().position(|s| Some(s.0) == w["script"].as_str()).unwrap_or(0);
+            if std::env::var("VERIF_C06_CHILD").is_ok() {
+                worker_count_probe(rep, &mut local, workers, si);
+            } else {
+                isolated_worker_count_probe(rep, &mut local, workers, si);
+            }
         } else {
             let pr: Probe = serde_json::from_value(c["endless_source"].clone()).expect("replay file holds no endless-source probe");
             run_probe(rep, &mut local, &pr);
@@ -255,9 +365,9 @@ pub fn run(args: &Args, rep: &Arc<Report>) {
     for l in outs {
         rep.merge(l);
     }
-    run_worker_counts(rep, &mut local);
+    run_worker_counts(rep);
     rep.merge(local);
     rep.sample(json!({"endless_source": probes[4]}));
     rep.extra("endless_source_probes", json!(probes.len()));
-    rep.set_rule("real-thread part: a source without a length hint that never ends (mono 12 bit, blocks of 32) with one out-of-width sample in block {0, 3, 40} x workers {1, 2, 4} x integer / byte fills: multi-thread encoding has to return, with the kind of error single-thread encoding returns (Err(Config) after bad_at + 1 reads), within 8 s (it needs milliseconds when it stops feeding); plus worker counts {300, 100000, 2^63, usize::MAX} x {fault-free, out-of-width sample, read error}: multi-thread result kind == single-thread result kind, no panic; non-trivial = a probe that terminated with the right kind");
+    rep.set_rule("real-thread part: a source without a length hint that never ends (mono 12 bit, blocks of 32) with one out-of-width sample in block {0, 3, 40} x workers {1, 2, 4} x integer / byte fills: multi-thread encoding has to return, with the kind of error single-thread encoding returns (Err(Config) after bad_at + 1 reads), within 8 s (it needs milliseconds when it stops feeding); plus worker counts {300, 100000, 2^63, usize::MAX} x {fault-free, out-of-width sample, read error}: multi-thread result kind == single-thread result kind, no panic, each probe in a child process of its own under a watchdog of 180 s (a process that dies or does not answer is a violation); non-trivial = a probe that terminated with the right kind");
 }
